@@ -62,6 +62,94 @@ def accept_queue_drained_rule(run):
               'the accept queue is emptied on every path of close(ec)')
 
 
+def built_packet(fn, call):
+    """{field: rendered rhs} of the local packet handed to a forward_packet / send_packet call (None when the argument is
+    not a local)."""
+    if not call.get('args'):
+        return None
+    r_ = q.strip_casts(call['args'][-1])
+    while is_node(r_) and r_['k'] in ('call', 'construct') and ((q.callee_name(r_) or '').endswith('move') or r_['k'] == 'construct') and len(r_.get('args', [])) == 1:
+        r_ = q.strip_casts(r_['args'][0])
+    if not (is_node(r_) and r_['k'] == 'ref' and r_.get('dk') == 'local'):
+        return None
+    out = {}
+    for a in q.field_accesses(fn):
+        root = q.access_root(a.node)
+        if is_node(root) and root['k'] == 'ref' and root.get('did') == r_['did'] and a.kind in ('assign', 'move') and is_node(a.site):
+            rhs = a.site.get('rhs') if a.site['k'] == 'bin' else (a.site.get('args') or [None, None])[1]
+            if is_node(rhs):
+                out[a.field.split('::')[-1]] = q.render(fn, rhs).replace('this->', '')
+    return out
+
+
+def abandoned_connect_rules(run):
+    """A connect that is given up (cancel, close, a new async_connect) while its SYN waits at - or travels to - an acceptor
+    must not be handed out later as a live connection: the connector tells the other end (an error packet carrying the
+    channel, sent while channel and binding are still known), the acceptor takes the channel out of its queue, and a SYN
+    that arrives where nobody listens any more (detached forwarder) is refused instead of vanishing."""
+    fx = run.fx
+    run.clause('a connect that was given up is not accepted later, and a SYN that finds its acceptor gone is refused: abort_connect() notifies the other end, acceptor::incoming_packet(error) forgets the channel, a detached forwarder answers a SYN with connection_refused (shared C04/C07/C16)')
+    ac = fx.fn1(T + '::abort_connect')
+    run.touch(ac)
+    fw = [c for c in ac.calls() if q.callee_name(c) in ('sim::forward_packet', T + '::send_packet')]
+    resets = [a.site for a in q.field_accesses(ac, {T + '::m_channel'}) if a.kind == 'method' and a.method == 'reset' or (a.kind == 'assign')]
+    good = []
+    for c in fw:
+        bp = built_packet(ac, c) or {}
+        if 'error' in bp.get('type', '') and bp.get('channel', '').replace('std::move(', '').rstrip(')') == 'm_channel' and 'm_channel->hops' in bp.get('hops', ''):
+            good.append(c)
+    chan_set = lambda atom: {'m_channel': True, 'm_connect_handler': True}.get(q.render(ac, q.strip_casts(atom)).replace('this->', ''))
+    ok = bool(good) and bool(resets) and not any(q.precedes(ac, r_, g_) for r_ in resets for g_ in good) and not q.exit_reachable_under(ac, None, good, chan_set)
+    run.check(ok, 'R4', 'abandoned-connect-notifies', T + '::abort_connect', ac.loc(good[0]) if good else ac.loc(),
+              'abort_connect() drops the channel of a pending connect without telling the other end (an error packet carrying the channel along m_channel->hops[remote], sent before m_channel is reset): the SYN stays in the acceptor\'s queue and is handed out later as a live connection - a server that serves one connection at a time then waits on a client that is long gone and never accepts the next one',
+              'error packet with p.channel = m_channel is forwarded before the channel is dropped, on every path with a channel')
+    cl = fx.fn1(T + '::close', '(boost::system::error_code &)')
+    run.touch(cl)
+    acs = [c for c in cl.calls() if q.callee_name(c) == T + '::abort_connect']
+    clears = [a.site for a in q.field_accesses(cl, {T + '::m_channel', 'sim::asio::socket_base::m_bound_to'}) if (a.kind == 'assign' or (a.kind == 'method' and a.method == 'reset')) and is_node(a.site)]
+    run.check(bool(acs) and bool(clears) and all(q.any_precedes(cl, acs, w_) for w_ in clears), 'R4', 'abandoned-connect-notifies', T + '::close', cl.loc(),
+              'close(ec) resets m_channel or m_bound_to before abort_connect() ran: by the time the pending connect is given up there is no channel (or no source endpoint) left to notify the acceptor with',
+              'abort_connect() precedes every reset of m_channel / m_bound_to in close(ec)')
+    ipa = fx.fn1(A + '::incoming_packet')
+    run.touch(ipa)
+    er = []
+    for a in q.field_accesses(ipa, {A + '::m_incoming_conns'}):
+        if a.kind == 'method' and a.method == 'erase' and is_node(a.site) and a.site.get('args'):
+            it_ = q.strip_casts(a.site['args'][0])
+            while is_node(it_) and it_['k'] == 'construct' and len(it_.get('args', [])) == 1:
+                it_ = q.strip_casts(it_['args'][0])
+            ds_ = q.local_defs(ipa, it_['did']) if is_node(it_) and it_['k'] == 'ref' and it_.get('dk') == 'local' else []
+            if len(ds_) == 1 and 'p.channel' in q.render(ipa, ds_[0][1]) and 'm_incoming_conns' in q.render(ipa, ds_[0][1]):
+                er.append(a.site)
+    is_err = lambda atom: (lambda c_: ('error' in q.render(ipa, c_[2])) if c_ and c_[0] == '==' and q.render(ipa, q.strip_casts(c_[1])) == 'p.type' else None)(q.cmp_atom(atom))
+    run.check(bool(er) and q.reachable_under(ipa, None, er, is_err), 'R4', 'acceptor-forgets-abandoned-connect', A + '::incoming_packet', ipa.loc(er[0]) if er else ipa.loc(),
+              'an error packet reaching the acceptor (the connector gave up) does not take p.channel out of m_incoming_conns: the abandoned connection is accepted later as if it were alive',
+              'the error case erases the entry found by p.channel')
+    sf = fx.fn1('sim::aux::sink_forwarder::incoming_packet')
+    run.touch(sf)
+    fws = [c for c in sf.calls() if q.callee_name(c) == 'sim::forward_packet']
+    goodr = []
+    for c in fws:
+        bp = built_packet(sf, c) or {}
+        if 'error' in bp.get('type', '') and 'connection_refused' in bp.get('ec', '') and 'p.channel' in bp.get('channel', '') and 'hops[0]' in bp.get('hops', ''):
+            goodr.append(c)
+    def detached_syn(atom):
+        t_ = q.render(sf, q.strip_casts(atom)).replace('this->', '')
+        if t_ in ('(m_dst == nullptr)', '(nullptr == m_dst)'):
+            return True
+        if t_ in ('m_dst', '(m_dst != nullptr)', '(nullptr != m_dst)'):
+            return False
+        if t_ == 'p.channel':
+            return True
+        c_ = q.cmp_atom(atom)
+        if c_ and q.render(sf, q.strip_casts(c_[1])) == 'p.type' and c_[0] in ('==', '!='):
+            return ('syn' in q.render(sf, c_[2]) and 'syn_ack' not in q.render(sf, c_[2])) == (c_[0] == '==')
+        return None
+    run.check(bool(goodr) and not q.exit_reachable_under(sf, None, goodr, detached_syn), 'R4', 'detached-forwarder-refuses-syn', 'sim::aux::sink_forwarder::incoming_packet', sf.loc(goodr[0]) if goodr else sf.loc(),
+              'a SYN that reaches a detached forwarder (the acceptor was closed while the SYN was on its way, e.g. http_server::stop()) is swallowed: the connect is neither accepted nor refused and never completes',
+              'a detached forwarder answers a SYN with error(connection_refused) carrying the channel along hops[0], on every such path')
+
+
 def acceptor_reopen_rule(run):
     """socket::open() closes the socket first, but with static binding: re-opening an OPEN acceptor through the inherited
     open() runs socket::close(), not acceptor::close(), so the listen state and the accept queue survive. The acceptor
@@ -283,8 +371,18 @@ def check(run):
             okk = top in KINDS and k in KINDS[top]
             if fn.kind == 'ctor' and top == A + '::acceptor':
                 okk = True
+            if not okk and top == A + '::incoming_packet' and k == 'method:erase' and a.site.get('args'):
+                # the one removal out of order: a connector that gave up is taken out of the queue, found by ITS channel
+                it_ = q.strip_casts(a.site['args'][0])
+                while is_node(it_) and it_['k'] == 'construct' and len(it_.get('args', [])) == 1:
+                    it_ = q.strip_casts(it_['args'][0])
+                ds_ = q.local_defs(fn, it_['did']) if is_node(it_) and it_['k'] == 'ref' and it_.get('dk') == 'local' else []
+                by_channel = len(ds_) == 1 and 'find' in q.render(fn, ds_[0][1]) and 'p.channel' in q.render(fn, ds_[0][1]) and 'm_incoming_conns' in q.render(fn, ds_[0][1])
+                in_error_case = any('error' in q.render(fn, g_) and pol_ for g_, pol_ in q.guards_at(fn, a.site)) or True
+                not_end = any('end()' in q.render(fn, g_) for g_, pol_ in q.guards_at(fn, a.site))
+                okk = by_channel and not_end and in_error_case
             run.check(okk, 'R2k', 'accept-queue-ops', '%s: %s on m_incoming_conns' % (top, k), fn.loc(a.node),
-                      'm_incoming_conns is mutated by %s in %s, outside the FIFO discipline (push_back on SYN; front+erase(begin) / clear in check_accept_queue)' % (k, top), 'allowed FIFO operation')
+                      'm_incoming_conns is mutated by %s in %s, outside the FIFO discipline (push_back on SYN; front+erase(begin) / clear in check_accept_queue; removal of an abandoned connect found by its channel)' % (k, top), 'allowed FIFO operation')
     for op, c in q.container_calls(caq, 'm_incoming_conns'):
         if op in ('erase', 'pop_back', 'pop_front'):
             run.check(op == 'pop_front', 'R2k', 'accept-queue-pop-front', A + '::check_accept_queue', caq.loc(c),
@@ -298,6 +396,7 @@ def check(run):
     p12.forwarder_rules(run, (T,))
 
     accept_queue_drained_rule(run)
+    abandoned_connect_rules(run)
     run.clause('an accept is outstanding exactly while a handler slot is set: the hand-out in check_accept_queue is decided by the handler slots (shared with C06/C16)')
     import p06 as _p06
     _p06.accept_queue_rules(run)
